@@ -483,8 +483,10 @@ def _remap(x, lo):
     return x
 
 
-def inline_call(fj, b, cj):
-    """Return a copy of function json fj in which the call terminating block b is replaced by the body of callee json cj."""
+def inline_call(fj, b, cj, cpath=None):
+    """Return a copy of function json fj in which the call terminating block b is replaced by the body of callee json cj.  Every copied block
+    keeps where it came from (`origin` on its terminator: helper path, block number in the helper), so that the copies of one helper site in several
+    callers can be recognised as the same site."""
     import copy
     nj = dict(fj)
     blocks = [dict(x) for x in fj["blocks"]]
@@ -536,10 +538,16 @@ def inline_call(fj, b, cj):
                 t = {"k": "goto", "tgt": tgt, "line": t.get("line")}
         elif k == "resume" and isinstance(unw, int):
             t = {"k": "goto", "tgt": unw, "line": t.get("line")}
+        if cpath is not None and "origin" not in t:
+            t["origin"] = [cpath, len(blocks) - bo]
         nb["term"] = t
         blocks.append(nb)
     nj["blocks"] = blocks
     nj["locals"] = locals_
+    if cpath is not None:
+        sites = list(fj.get("inline_sites", []))
+        sites.append({"helper": cpath, "call_block": b, "first_block": bo, "nblocks": len(cj["blocks"]), "local_offset": lo, "nargs": cj["nargs"]})
+        nj["inline_sites"] = sites
     return nj
 
 
@@ -641,7 +649,7 @@ class Program:
                     continue
                 j = fn.j
                 for (b, c) in sites:
-                    j = inline_call(j, b, self.fns[c].j)
+                    j = inline_call(j, b, self.fns[c].j, c)
                     self.inlined.setdefault(path, []).append(c)
                 self.fns[path] = Fn(path, j, fn.crate)
                 changed = True
